@@ -15,6 +15,7 @@ import (
 	"time"
 
 	"github.com/my-cloud/ruthenium/validatornode/application"
+	"github.com/my-cloud/ruthenium/validatornode/application/network"
 	"github.com/my-cloud/ruthenium/validatornode/domain/ledger"
 
 	"ruverif/internal/node"
@@ -405,6 +406,9 @@ func derive(w *world, c *caseSpec) (msg []byte, base *baseMsg, err error) {
 		return nil, nil, err
 	}
 	root := base.v
+	if c.Fault == "own-target" {
+		return []byte(c.Variant), base, nil
+	}
 	if c.Fault != "" && c.Fault != "delivery" {
 		res, whole, ok := applyFault(root, c.path(), c.Fault)
 		if !ok {
@@ -422,6 +426,10 @@ func derive(w *world, c *caseSpec) (msg []byte, base *baseMsg, err error) {
 	}
 	return msg, base, nil
 }
+
+type creatorFunc func(ip, port string) (application.Sender, error)
+
+func (f creatorFunc) CreateSender(ip string, port string) (application.Sender, error) { return f(ip, port) }
 
 func guarded(f func()) (panicked string) {
 	defer func() {
@@ -546,6 +554,29 @@ func runHandler(c *caseSpec, d *driver) *caseResult {
 			}
 		}
 		m, err = d.ask("h:targets", msg)
+		// what the accepted targets do to a REAL Neighborhood at its next refresh round: the same list (when it decodes)
+		// is given to network.Neighborhood.AddTargets, then Synchronize runs — with every peer reachable, and with every
+		// peer unreachable; a panic there kills the clock-engine goroutine, hence the node
+		var list []string
+		if implClass == "ok" && json.Unmarshal(msg, &list) == nil {
+			for _, reach := range []bool{true, false} {
+				reach := reach
+				nb := network.NewNeighborhood(creatorFunc(func(ip, port string) (application.Sender, error) {
+					if !reach {
+						return nil, fmt.Errorf("unreachable")
+					}
+					return &node.Sender{TargetValue: network.NewTarget(ip, port).Value(), Targets: func([]string) error { return nil }}, nil
+				}), "127.0.0.1", "7001", 8, map[string]int{"127.0.0.1:7009": 0}, nil)
+				if pp := guarded(func() {
+					nb.Synchronize(0)
+					nb.AddTargets(list)
+					nb.Synchronize(0)
+					nb.Synchronize(0)
+				}); pp != "" {
+					c.fail(r, "followup-panic", fmt.Sprintf("the accepted targets made the next neighbourhood refresh panic (peers reachable: %v): %s", reach, pp), msg)
+				}
+			}
+		}
 	case "update-ext", "update-full":
 		ext := c.Schema == "update-ext"
 		hostLen := uint64(len(w.n.AllBlocks()))
